@@ -173,27 +173,31 @@ pub fn check_frame(ty: u64, payload: &[u8], sid: Option<u64>, deep: bool) -> Res
     } else {
         vec![0, size.saturating_sub(1), size, size + 2]
     };
+    // (the writer may already hold `pre` bytes of an earlier element: what counts is the room that is left)
     for cap in caps {
-        let mut dst = vec![0xAAu8; cap];
-        let mut w = BufferWriter::new(&mut dst);
-        let res = f.write_to_buffer(&mut w);
-        let off = w.offset();
-        if cap < size {
-            if res.is_ok() {
-                return Err(format!("write_to_buffer succeeded with capacity {cap} < {size}"));
-            }
-            if off != 0 {
-                return Err(format!("write_to_buffer failed but advanced the writer to {off}"));
-            }
-            if dst.iter().any(|b| *b != 0xAA) {
-                return Err(format!("write_to_buffer failed (capacity {cap}) but modified the destination"));
-            }
-        } else {
-            if res.is_err() {
-                return Err(format!("write_to_buffer failed with capacity {cap} >= {size}"));
-            }
-            if off != size || dst[..size] != expected[..] || dst[size..].iter().any(|b| *b != 0xAA) {
-                return Err(format!("write_to_buffer wrote wrong bytes/offset (cap {cap}, offset {off})"));
+        for pre in [0usize, 1, 5] {
+            let mut dst = vec![0xAAu8; cap + pre];
+            let mut w = BufferWriter::new(&mut dst);
+            w.put_bytes(&vec![0xBB; pre]).map_err(|_| "harness: prefix does not fit")?;
+            let res = f.write_to_buffer(&mut w);
+            let off = w.offset();
+            if cap < size {
+                if res.is_ok() {
+                    return Err(format!("write_to_buffer succeeded with {cap} bytes of room (after {pre} bytes already written) < {size}"));
+                }
+                if off != pre {
+                    return Err(format!("write_to_buffer failed but moved the writer from {pre} to {off}"));
+                }
+                if dst[pre..].iter().any(|b| *b != 0xAA) {
+                    return Err(format!("write_to_buffer failed ({cap} bytes of room after {pre} written) but modified the destination"));
+                }
+            } else {
+                if res.is_err() {
+                    return Err(format!("write_to_buffer failed with {cap} bytes of room (after {pre} written) >= {size}"));
+                }
+                if off != pre + size || dst[pre..pre + size] != expected[..] || dst[pre + size..].iter().any(|b| *b != 0xAA) || dst[..pre].iter().any(|b| *b != 0xBB) {
+                    return Err(format!("write_to_buffer wrote wrong bytes/offset (room {cap}, {pre} written before, offset {off})"));
+                }
             }
         }
     }
@@ -291,16 +295,19 @@ pub fn check_stream_header(ty: u64, sid: Option<u64>) -> Result<(), String> {
         return Err(format!("write produced {} expected {}", vx::hex(&vec), vx::hex(&expected)));
     }
     for cap in 0..=size + 2 {
-        let mut dst = vec![0xAAu8; cap];
-        let mut w = BufferWriter::new(&mut dst);
-        let res = h.write_to_buffer(&mut w);
-        let off = w.offset();
-        if cap < size {
-            if res.is_ok() || off != 0 || dst.iter().any(|b| *b != 0xAA) {
-                return Err(format!("write_to_buffer with capacity {cap} < {size}: ok={} off={off}", res.is_ok()));
+        for pre in [0usize, 1, 5] {
+            let mut dst = vec![0xAAu8; cap + pre];
+            let mut w = BufferWriter::new(&mut dst);
+            w.put_bytes(&vec![0xBB; pre]).map_err(|_| "harness: prefix does not fit")?;
+            let res = h.write_to_buffer(&mut w);
+            let off = w.offset();
+            if cap < size {
+                if res.is_ok() || off != pre || dst[pre..].iter().any(|b| *b != 0xAA) {
+                    return Err(format!("stream header write_to_buffer with {cap} bytes of room (after {pre} written) < {size}: ok={} off={off}", res.is_ok()));
+                }
+            } else if res.is_err() || off != pre + size || dst[pre..pre + size] != expected[..] {
+                return Err(format!("stream header write_to_buffer with {cap} bytes of room (after {pre} written): ok={} off={off}", res.is_ok()));
             }
-        } else if res.is_err() || off != size || dst[..size] != expected[..] {
-            return Err(format!("write_to_buffer with capacity {cap}: ok={} off={off}", res.is_ok()));
         }
     }
     let mut with_tail = expected.clone();
